@@ -651,7 +651,10 @@ func (s *Super) verdict(out io.Writer) int {
 			}
 			continue
 		}
-		if printed >= 20 {
+		if printed >= 6 {
+			// six confirmed witnesses are printed; further distinct keys are counted (and kept in the evidence) without
+			// spending a fresh child each on them - a broken tree can produce dozens, and under the race detector a
+			// confirmation takes a minute or two
 			nViol++
 			continue
 		}
